@@ -1539,7 +1539,8 @@ class CircuitIR(AbstractBaseIR):
 
                     # if multiple inputs to variable, sum them up
                     if len(in_ops_col) > 1:
-                        in_ops[var_name] = self._map_multiple_inputs(in_ops_col, scope=scope)
+                        in_ops[var_name] = self._map_multiple_inputs(
+                            in_ops_col, scope=scope, reserved=[key for key in op_args if key != var_name])
                     else:
                         key, _ = in_ops_col.popitem()
                         in_ops[var_name] = (None, {var_name: key})
@@ -1604,7 +1605,7 @@ class CircuitIR(AbstractBaseIR):
         return v
 
     @staticmethod
-    def _map_multiple_inputs(inputs: dict, scope: str) -> tuple:
+    def _map_multiple_inputs(inputs: dict, scope: str, reserved: List[str] = ()) -> tuple:
         """Creates mapping between multiple input variables and a single output variable.
 
         Parameters
@@ -1613,6 +1614,8 @@ class CircuitIR(AbstractBaseIR):
             Input variables.
         scope
             Scope of the input variables
+        reserved
+            Names of the other variables of the operator, which must not be used as labels for the input variables.
 
         Returns
         -------
@@ -1637,6 +1640,9 @@ class CircuitIR(AbstractBaseIR):
                 in_var = key.split('/')[-1]
             inp, inputs_unique_tmp = get_unique_label(in_var, inputs_unique)
             inputs_unique.update(inputs_unique_tmp)
+            while inp in reserved:
+                inp, inputs_unique_tmp = get_unique_label(in_var, inputs_unique)
+                inputs_unique.update(inputs_unique_tmp)
 
             # store input-related information
             new_input_vars.append(inp)
